@@ -33,6 +33,7 @@ def _worker(st, ctx):
     else:
         arr = np.array(val0, dtype=complex if typ == "probability_amplitude" else float)
         r = SimulationResult(arr, typ, inputs=ins, outputs=outs0)
+        arr[:] = -7          # the caller's buffer is the caller's: refilling it afterwards must not reach the result
         for i, a in enumerate(ins):
             for j, o in enumerate(outs0):
                 v = {r[a, o], r[a][o], r.array[i, j]}
@@ -52,6 +53,17 @@ def _worker(st, ctx):
             return out
         except Exception:  # noqa: BLE001
             pass
+    if typ == "probability" and st["maps"] and not st["rej"]:
+        # the same content scaled so that every input's total is 1 - 6e-6 (a lossy distribution): mappings are linear per input, totals stay
+        tot0 = [float(sum(row)) or 1.0 for row in val0]
+        scale = [(1 - 6e-6) / t_ for t_ in tot0]
+        rs = SimulationResult(np.array([[v * scale[i] for v in row] for i, row in enumerate(val0)], dtype=float), typ, inputs=ins, outputs=outs0)
+        for kind, inv in st["maps"]:
+            rs = rs.apply_threshold_mapping(invert=inv) if kind == "threshold" else rs.apply_parity_mapping(invert=inv)
+        for i in range(len(ins)):
+            if sum(val0[i]) and abs(float(np.sum(rs.array[i])) - (1 - 6e-6)) > 1e-12:
+                f.append(("mapping", "after %s an input total of 1 - 6e-6 became %.12f" % (st["maps"], float(np.sum(rs.array[i])))))
+                return out
     for kind, inv in st["maps"]:
         try:
             r = r.apply_threshold_mapping(invert=inv) if kind == "threshold" else r.apply_parity_mapping(invert=inv)
